@@ -28,6 +28,12 @@ Oracles (DESIGN.md section 5 / C17):
   recorded loss and the same values is accepted), and - evaluated afresh on a harness-built state - no kept draw has a lower
   loss than the returned one (1e-4 (1 + |loss|)).
 
+Variant `reused-algorithm-object` (a third of the sampling cases, a quarter of the scipy cases): the algorithm object is built once, the way model.personalize builds it
+(`BaseModel._get_algorithm`), and run twice through `algorithm.run(model, BaseModel._get_dataset(data))` - on the cohort, then on the same
+cohort again or on another generated cohort with the same number of individuals. Each run is judged by the oracles above against what
+was recorded during that run (failure buckets end in `@reused-algorithm-run<k>`); for scipy_minimize the second run must
+return exactly what a fresh object returns for the same input and seeds.
+
 Input classes with a genuine defect on the current tree are not judged by the main search (each is counted with col.exclude, has a
 plain-JSON reproducer in `reproducers()` that the `findings` shard re-runs on every run -> class `finding-reproduced:<name>` or a
 note that it is gone, and can be put back with VF_C17_INCLUDE=<name>|all): integer identifiers (`int-ids`), joint + scipy_minimize
@@ -76,6 +82,8 @@ RULE = (
     "x settings (scipy_minimize: seed int or None, use_jacobian, n_jobs 1-2, default / Powell / Nelder-Mead custom minimiser; "
     "mean_posterior and mode_posterior: n_iter 2-40, burn-in as count / fraction / both / default leaving 1, 2, mid or all draws, "
     "annealing off or on with valid plateaus, adaptive-proposal parameters, seed int or None). "
+    "A third of the sampling cases and a quarter of the scipy cases build ONE algorithm object (the way model.personalize does) and run it twice - same cohort again, or another "
+    "generated cohort with the same number of individuals - each run judged against its own recorded chain / start. "
     "Non-trivial = >= 3 individuals and (samplers) >= 2 kept draws among which some individual's value changed (an accepted move) "
     "/ (scipy) the objective of at least one subject strictly improved; distinct by the hash of the whole case."
 )
@@ -98,6 +106,9 @@ ASSUMPTIONS = [
     "Joint kind + scipy_minimize: a case in which a subject comes back with all parameters NaN (scipy 'NaN result encountered' after the line "
     "search stepped to where the hazard term is NaN) is counted as excluded 'joint-scipy-nan-result' and not judged - a genuine defect of the current "
     "tree that cannot be predicted from the input, reported as a finding with its reproducer; VF_C17_INCLUDE=joint-scipy-nan-result judges it.",
+    "Reused algorithm object: the runs use algorithm.run(model, BaseModel._get_dataset(data)), the two steps model.personalize performs; every run "
+    "must satisfy the statement on its own (samples kept after burn-in = those of that run); for scipy_minimize the second run of the reused object must "
+    "return exactly what a fresh object returns for the same input and seeds (same process, same arithmetic).",
     "Scope: the mixture_logistic kind is not generated (its prior mode is per cluster; sampler-based personalization crashes on any cohort - reproducer kept); "
     "device is always cpu; n_jobs in {1, 2}.",
 ]
@@ -112,6 +123,7 @@ REQUIRED_CLASSES = {
     "kept:1": 0.03, "kept:2": 0.03, "burn-in:0": 0.03, "burn-spec:frac": 0.05, "burn-spec:count": 0.05, "burn-spec:both": 0.03,
     "burn-spec:default": 0.03, "annealing:on": 0.08, "accepted-move-among-kept": 0.2, "mode-not-last-draw": 0.03,
     "scipy:improved": 0.05, "scipy:n_jobs=2": 1, "scipy:custom-minimiser": 0.02, "seed:none": 0.03,
+    "reused-algorithm-object": 0.1, "reused:same-cohort": 0.03, "reused:other-cohort": 0.05,
     "nontrivial": 0.15,
 }
 
@@ -318,6 +330,15 @@ def case_strategy(draw, algos=("scipy_minimize",) + SAMPLING_ALGOS, n_ind_max=10
                              event=(model["kind"] == "joint"), id_kinds=id_kinds, fit_ready=False))
     form = draw(st.sampled_from(["data", "dataset"] if model["kind"] == "joint" else ["dataframe", "dataframe", "data", "dataset"]))
     case = dict(model=model, cohort=cohort, form=form, algo=algo, pre_seed=draw(st.integers(0, 10**6)))
+    # variant: ONE algorithm object (built the way model.personalize builds it) run twice - on this cohort, then on the same
+    # cohort again or on another cohort with the same number of individuals; each run is judged against its own chain / start
+    reuse = draw(st.sampled_from(["no"] * (6 if algo == "scipy_minimize" else 3) + ["same", "other", "other"]))
+    if reuse == "same":
+        case["reuse"] = dict(cohort2=None)
+    elif reuse == "other":
+        n1 = len(expected_ids(cohort))
+        case["reuse"] = dict(cohort2=draw(gen.cohort(kind=model["data_kind"], n_ind=(n1, n1), n_visits=visits, features=model["features"],
+                                                     event=(model["kind"] == "joint"), id_kinds=id_kinds, fit_ready=False)))
     if algo == "scipy_minimize":
         case["settings"] = draw(scipy_settings(allow_njobs2=allow_njobs2))
     else:
@@ -472,14 +493,45 @@ def expected_burn_in(settings):
 # ------------------------------------------------------------------------------------------------
 # the oracle
 # ------------------------------------------------------------------------------------------------
-def call_personalize(model, case, df, data, ds):
+_LAST_RESULT = [None]  # what the latest call_personalize returned (read by run_reused)
+
+
+def make_algorithm(case):
+    """The algorithm object exactly as model.personalize builds it (BaseModel._get_algorithm -> algorithm_factory(AlgorithmSettings))."""
+    from leaspy.models.base import BaseModel
+
+    with quiet():
+        return BaseModel._get_algorithm(case["algo"], None, None, progress_bar=False, **copy.deepcopy(case["settings"]))
+
+
+def call_personalize(model, case, df, data, ds, algo_obj=None):
+    """model.personalize(...), or - with a pre-built algorithm object - the two steps model.personalize performs itself:
+    dataset = BaseModel._get_dataset(data); return algorithm.run(model, dataset)."""
     arg = {"dataframe": df, "data": data, "dataset": ds}[case["form"]]
     seed_everything(case["pre_seed"])  # seed=None runs read the global generators: keep them a function of the case
     try:
         with quiet(), silence_fd1(case["settings"].get("n_jobs", 1) != 1):
-            return model.personalize(arg, case["algo"], progress_bar=False, **copy.deepcopy(case["settings"]))
+            if algo_obj is None:
+                out = model.personalize(arg, case["algo"], progress_bar=False, **copy.deepcopy(case["settings"]))
+            else:
+                from leaspy.models.base import BaseModel
+
+                out = algo_obj.run(model, BaseModel._get_dataset(arg))
+            _LAST_RESULT[0] = out
+            return out
     except Exception as e:
         raise PersonalizeRaised(e) from e
+
+
+class _TaggedCol:
+    """Collector proxy for the runs of a reused algorithm object: failures carry the run in their bucket and the WHOLE case as input."""
+
+    def __init__(self, col, tag, full_case):
+        self._col, self._tag, self._case = col, tag, full_case
+        self.notes = col.notes
+
+    def fail(self, sub, bucket, inp, observed="", expected=""):
+        self._col.fail(sub, bucket + self._tag, self._case, observed=observed, expected=expected)
 
 
 def check_common(col, case, ip, ids, sub):
@@ -539,7 +591,7 @@ def as_tensors(vals, shapes):
     return {n: torch.tensor(vals[n], dtype=torch.float32).reshape(1, shapes[n]) for n in shapes}
 
 
-def run_scipy(col, case, model, df, data, ds, ids, classes):
+def run_scipy(col, case, model, df, data, ds, ids, classes, algo_obj=None):
     import numpy as np
     import torch
 
@@ -565,7 +617,7 @@ def run_scipy(col, case, model, df, data, ds, ids, classes):
     SM.minimize = minimize_recorded
     try:
         with observe.wrap_method(model, "put_individual_parameters", after=after_put):
-            ip = call_personalize(model, case, df, data, ds)
+            ip = call_personalize(model, case, df, data, ds, algo_obj)
     finally:
         SM.minimize = orig
     if EXCLUDE_JOINT_NAN and spec["kind"] == "joint" and _has_all_nan_subject(ip):
@@ -625,7 +677,7 @@ def run_scipy(col, case, model, df, data, ds, ids, classes):
     return len(ids) >= 3 and improved >= 1
 
 
-def run_sampling(col, case, model, df, data, ds, ids, classes):
+def run_sampling(col, case, model, df, data, ds, ids, classes, algo_obj=None):
     import numpy as np
     import torch
 
@@ -652,7 +704,7 @@ def run_sampling(col, case, model, df, data, ds, ids, classes):
 
     with observe.wrap_method(McmcPersonalizeAlgorithm, "_initialize_algo", after=after_init), \
             observe.wrap_method(McmcPersonalizeAlgorithm, "_update_temperature", before=before_temperature):
-        ip = call_personalize(model, case, df, data, ds)
+        ip = call_personalize(model, case, df, data, ds, algo_obj)
     vals = check_common(col, case, ip, ids, sub)
     if vals is None:
         return None
@@ -734,6 +786,42 @@ def run_sampling(col, case, model, df, data, ds, ids, classes):
     return n >= 3 and n_kept >= 2 and moved
 
 
+def run_reused(col, case, model, runner, classes):
+    """One algorithm object, two runs; every run is judged by the ordinary oracle against what was recorded during THAT run.
+    scipy_minimize additionally: the second run returns what a fresh algorithm object returns for the same input and seeds."""
+    import numpy as np
+
+    classes.add("reused-algorithm-object")
+    cohort2 = case["reuse"].get("cohort2")
+    classes.add("reused:same-cohort" if cohort2 is None else "reused:other-cohort")
+    try:
+        algo_obj = make_algorithm(case)
+    except Exception as e:
+        raise PersonalizeRaised(e) from e
+    nts = []
+    for k, cohort in ((1, case["cohort"]), (2, cohort2 if cohort2 is not None else case["cohort"])):
+        # the second run reads other global-generator values than the first when seed=None (the chain must differ to tell a mix-up)
+        sub_case = dict(case, cohort=cohort, pre_seed=case["pre_seed"] + (k - 1))
+        df, data, ds = make_data(cohort)
+        ids = expected_ids(cohort)
+        tagged = _TaggedCol(col, f"@reused-algorithm-run{k}", case)
+        before = col.n_failures()
+        nts.append(runner(tagged, sub_case, model, df, data, ds, ids, set() if k == 2 else classes, algo_obj=algo_obj))
+        if col.n_failures() > before:
+            return None
+    if case["algo"] == "scipy_minimize":
+        cohort = cohort2 if cohort2 is not None else case["cohort"]
+        sub_case = dict(case, cohort=cohort, pre_seed=case["pre_seed"] + 1)
+        reused = _LAST_RESULT[0]  # what the second run of the reused object returned
+        fresh = call_personalize(model, sub_case, *make_data(cohort))
+        a = {i: {n: np.asarray(v, dtype=np.float64).tolist() for n, v in reused[i].items()} for i in reused._indices}
+        b = {i: {n: np.asarray(v, dtype=np.float64).tolist() for n, v in fresh[i].items()} for i in fresh._indices}
+        if a != b:
+            col.fail("scipy", "reused-algorithm-differs-from-fresh-algorithm", case, observed=a, expected=b)
+            return None
+    return any(bool(x) for x in nts)
+
+
 def body(col: Collector, case):
     import numpy as np
 
@@ -769,11 +857,12 @@ def body(col: Collector, case):
         if case["settings"].get("annealing", {}).get("do_annealing"):
             classes.add("annealing:on")
     sub = "scipy" if case["algo"] == "scipy_minimize" else case["algo"]
+    runner = run_scipy if case["algo"] == "scipy_minimize" else run_sampling
     try:
-        if case["algo"] == "scipy_minimize":
-            nt = run_scipy(col, case, model, df, data, ds, ids, classes)
+        if not case.get("reuse"):
+            nt = runner(col, case, model, df, data, ds, ids, classes)
         else:
-            nt = run_sampling(col, case, model, df, data, ds, ids, classes)
+            nt = run_reused(col, case, model, runner, classes)
     except SkipCase as sk:
         col.exclude(str(sk))
         return
